@@ -1297,8 +1297,14 @@ func (t *itype) finalize() (*itype, error) {
 }
 
 func (t *itype) addMethod(n *node) {
-	for _, m := range t.method {
+	for i, m := range t.method {
 		if m == n {
+			return
+		}
+		if m.ident == n.ident {
+			// The method is defined again (incremental evaluation): the new
+			// definition replaces the previous one, as for a function.
+			t.method[i] = n
 			return
 		}
 	}
